@@ -557,6 +557,49 @@ def check_factory_optional_deref(ctx):
                               'the optional field %s is tested before .%s is read' % (tb, x.attr),
                               '%s is optional in the decoder of its structure and .%s is read from it without a None test: AttributeError -> General Failure for a well-formed Register' % (tb, x.attr))
     ctx.analysed['optional_fields_dereferenced_in_converters'] = n_direct
+    # a local that holds an optional field (info = value.encryption_key_information): every attribute read on it sits behind a test of THAT local
+    # (reading it under the test of its sibling - `if mac_signature_key_info: ... encryption_key_info.cryptographic_parameters` - is the defect)
+    n_locals = 0
+    for name, fn in sorted(ms.items()):
+        ps = params(fn)
+        if name.startswith('_build_core') or not ps:
+            continue
+        g = CFG(fn)
+        rd = ReachingDefs(g)
+        from ..cfg import expr_nodes
+        for n in g.nodes:
+            for ex in expr_nodes(n):
+                for x in ast.walk(ex):
+                    if not (isinstance(x, ast.Attribute) and isinstance(x.ctx, ast.Load) and isinstance(x.value, ast.Name) and x.value.id not in ps):
+                        continue
+                    v = x.value.id
+                    vals = [d for d in rd.values(n, v) if isinstance(d, ast.AST)]
+                    if len(vals) != 1 or not isinstance(vals[0], ast.Attribute):
+                        continue
+                    src_ = vals[0]
+                    root = src_
+                    while isinstance(root, ast.Attribute):
+                        root = root.value
+                    if not (isinstance(root, ast.Name) and root.id in ps):
+                        continue
+                    info = field_info(src_)
+                    if not info or not info[1]:
+                        continue
+                    cands = by_field.get(src_.attr, [])
+                    if any(d['raw'] or d['rep'] for r, d in cands):
+                        continue
+                    n_locals += 1
+                    guarded = False
+                    for tt, lab in dominating_edges(g, n):
+                        nt = is_none_test(tt.stmt)
+                        if nt and U(nt[1]) == v and ((nt[0] == 'isnot') == (lab == 'T')):
+                            guarded = True
+                        if U(tt.stmt) == v and lab == 'T':
+                            guarded = True
+                    ctx.check(guarded, 'C13.R11', 'ObjectFactory.%s|%s.%s (= %s)' % (name, v, x.attr, U(src_)), '%s:%s ObjectFactory.%s' % (FACTORY, x.lineno, name),
+                              'the local %s (= %s, optional) is tested before .%s is read' % (v, U(src_), x.attr),
+                              '%s holds %s, which is optional in the decoder of its structure, and .%s is read from it without a test of %s itself: AttributeError -> General Failure for a well-formed Register' % (v, U(src_), x.attr, v))
+    ctx.analysed['optional_field_locals_dereferenced_in_converters'] = n_locals
 
 
 def check_table_lookup_results(ctx):
@@ -623,6 +666,65 @@ def check_table_lookup_results(ctx):
                               '%s is tested (or its key is) before it is used' % x,
                               '%s = %s can be None (the table does not hold every value of the enumeration), and %s is evaluated without a test: TypeError / AttributeError -> General Failure for an unsupported value' % (x, U(v)[:70], U(use)[:40]))
     ctx.count('table_lookup_result_uses', n, 8)
+
+
+def check_calendar_conversions(ctx):
+    """C13.R17: calendar conversions of request-controlled numbers cannot escape as library exceptions."""
+    from ..cfg import CFG
+    from ..dataflow import ReachingDefs
+    from ..guards import dominating_edges, handler_catches, cmp_parts
+    ctx.rule('C13.R17', 'a KMIP Date-Time is any 64-bit number of seconds, and time.gmtime / localtime / ctime (and datetime.fromtimestamp / utcfromtimestamp) raise OverflowError, OSError or ValueError for numbers outside the calendar range: in KmipEngine every such call either converts the server clock (time.time()), or a request value that a dominating test keeps within a constant distance of the server clock, or runs inside a try that catches those errors - arguments of a log call are evaluated whether or not the record is emitted, so a date that is only formatted for a DEBUG line still turns a well-formed request into General Failure')
+    t = ctx.src.tree(ENGINE)
+    cls = get_class(t, 'KmipEngine')
+    CONV = {'time.gmtime', 'time.localtime', 'time.ctime', 'datetime.datetime.fromtimestamp', 'datetime.datetime.utcfromtimestamp', 'datetime.fromtimestamp', 'datetime.utcfromtimestamp'}
+    n = 0
+    for name, fn in sorted(methods(cls).items()):
+        calls = [c for c in walk_local(fn) if isinstance(c, ast.Call) and (call_name(c) or '') in CONV]
+        if not calls:
+            continue
+        g = CFG(fn)
+        rd = ReachingDefs(g)
+        from ..dataflow import node_of_expr
+        for c in calls:
+            n += 1
+            nd = node_of_expr(g, c)
+            arg = c.args[0] if c.args else None
+            ok, why = False, ''
+            if arg is None:
+                ok, why = True, 'the current time'
+            def clock(e):
+                e2 = e.args[0] if isinstance(e, ast.Call) and call_name(e) == 'int' and len(e.args) == 1 else e
+                return isinstance(e2, ast.Call) and call_name(e2) == 'time.time'
+            if not ok and (clock(arg) or (isinstance(arg, ast.Name) and nd is not None and rd.values(nd, arg.id) and all(isinstance(v, ast.AST) and clock(v) for v in rd.values(nd, arg.id)))):
+                ok, why = True, 'the server clock'
+            if not ok and nd is not None:
+                for tr in nd.tries:
+                    hs = set()
+                    for h in tr.handlers:
+                        ts_ = [None] if h.type is None else (h.type.elts if isinstance(h.type, ast.Tuple) else [h.type])
+                        hs |= {(dotted(x) or '').split('.')[-1] if x is not None else 'BaseException' for x in ts_}
+                    if hs & {'Exception', 'BaseException'} or {'OverflowError', 'ValueError'} <= hs:
+                        ok, why = True, 'inside a try that catches the conversion errors'
+            if not ok and nd is not None and isinstance(arg, ast.Name):
+                # X within a constant distance of the clock: (now - X) < c  and  now >= X  on the dominating true edges
+                lo = hi = False
+                for tt, lab in dominating_edges(g, nd):
+                    if lab != 'T':
+                        continue
+                    p = cmp_parts(tt.stmt)
+                    if not p:
+                        continue
+                    txt = U(tt.stmt)
+                    if arg.id in txt and isinstance(p[2], ast.Constant) and p[1] in ('Lt', 'LtE') and isinstance(p[0], ast.BinOp) and isinstance(p[0].op, ast.Sub):
+                        hi = True
+                    if p[1] in ('GtE', 'Gt', 'LtE', 'Lt') and isinstance(p[0], ast.Name) and isinstance(p[2], ast.Name) and arg.id in (p[0].id, p[2].id):
+                        lo = True
+                if lo and hi:
+                    ok, why = True, 'bounded by the server clock on both sides'
+            ctx.check(ok, 'C13.R17', 'KmipEngine.%s|%s(%s)' % (name, call_name(c), U(arg)[:30] if arg is not None else ''), '%s:%s KmipEngine.%s' % (ENGINE, c.lineno, name),
+                      '%s converts %s' % (call_name(c), why),
+                      '%s(%s) converts a number a request controls (any 64-bit Date-Time) without a bound or a try: OverflowError / OSError / ValueError for far-away dates is not a KMIP error - General Failure for a well-formed request' % (call_name(c), U(arg)[:40] if arg is not None else ''))
+    ctx.analysed['calendar_conversions_in_engine'] = n
 
 
 def check_library_value_errors(ctx):
@@ -1048,6 +1150,7 @@ def run(ctx):
     check_index_bounds(ctx, m, 'C13.R10', ' (shared with C15.R9)')
     check_factory_optional_deref(ctx)
     check_table_lookup_results(ctx)
+    check_calendar_conversions(ctx)
     check_library_value_errors(ctx)
     check_union_field_reads(ctx)
     check_single_row_queries(ctx)
